@@ -10,7 +10,7 @@ RULE = ('structured inputs x every non-empty mode subset (each of the 63 subsets
         'produced stream is parsed by the independent mode-tracking reference decoder and its latches are intersected with the '
         'disabled modes; characters carried in ASCII while ASCII is disabled must lie in the final four positions; '
         'non-trivial = some mode disabled and encoding succeeded')
-THEOREMS = 'C13_plan_modes_enabled, C13_latch_source, C13_fallback_is_ascii'
+THEOREMS = 'C13_plan_modes_enabled, C13_latch_source, C13_fallback_is_ascii, C13_ascii_only_no_latch'
 ASSUMPTIONS = ['refdec.py is an independent reading of ISO/IEC 16022 5.2']
 BIT = {'C40': 2, 'Text': 4, 'X12': 8, 'Edifact': 16, 'Base256': 32}
 
